@@ -101,11 +101,74 @@ U64MAX = (1 << 64) - 1
 TYPE_MAX = {'u8': 255, 'u16': 65535, 'u32': (1 << 32) - 1, 'u64': U64MAX, 'usize': U64MAX, 'u128': (1 << 128) - 1}
 
 
+_ENV = {}
+_FIELD_RANGE = None
+
+
+def env_of_conds(conds):
+    """term -> (lo | None, hi | None) from the comparisons with constants a path has established."""
+    env = {}
+
+    def upd(x, lo=None, hi=None):
+        if not isinstance(x, tuple):
+            return
+        while x and x[0] == 'cast' and isinstance(x[1], tuple):
+            keys = [x]
+            x = x[1]
+            keys.append(x)
+        cur = env.get(x, (None, None))
+        nlo = lo if cur[0] is None else (cur[0] if lo is None else max(cur[0], lo))
+        nhi = hi if cur[1] is None else (cur[1] if hi is None else min(cur[1], hi))
+        env[x] = (nlo, nhi)
+    for c, v in conds:
+        if not (isinstance(c, tuple) and c and c[0] == 'cmp' and isinstance(v, bool)):
+            continue
+        op, a, b = c[1], c[2], c[3]
+        ca = a[1] if (isinstance(a, tuple) and a and a[0] == 'c' and isinstance(a[1], int) and not isinstance(a[1], bool)) else None
+        cb = b[1] if (isinstance(b, tuple) and b and b[0] == 'c' and isinstance(b[1], int) and not isinstance(b[1], bool)) else None
+        if op == 'le':
+            if ca is not None and cb is None:      # ca <= b
+                upd(b, lo=ca) if v else upd(b, hi=ca - 1)
+            elif cb is not None and ca is None:    # a <= cb
+                upd(a, hi=cb) if v else upd(a, lo=cb + 1)
+        elif op == 'lt':
+            if ca is not None and cb is None:      # ca < b
+                upd(b, lo=ca + 1) if v else upd(b, hi=ca)
+            elif cb is not None and ca is None:    # a < cb
+                upd(a, hi=cb - 1) if v else upd(a, lo=cb)
+        elif op == 'eq' and v:
+            if ca is not None and cb is None:
+                upd(b, lo=ca, hi=ca)
+            elif cb is not None and ca is None:
+                upd(a, lo=cb, hi=cb)
+    return {k_: v_ for k_, v_ in env.items() if (v_[1] is None or v_[1] >= 0)}
+
+
 def interval(t, depth=0):
     """Interval of an unsigned integer term of the abstract interpreter, or None (unknown).  Sound for the operators below; a
     loop variable drawn from a literal range `a..b` lies in [a, b-1]."""
     if not isinstance(t, tuple) or not t or depth > 24:
         return None
+    if (_ENV or _FIELD_RANGE is not None) and depth < 24:
+        # bounds established by the conditions of the path (and by construction-time invariants of struct fields) refine the structural range
+        b_ = _ENV.get(t)
+        if b_ is None and _FIELD_RANGE is not None:
+            if t[0] == 'fld':
+                b_ = _FIELD_RANGE(t)
+            elif t[0] == 'havoc' and isinstance(t[1], tuple) and t[1] and t[1][0] == 'fld':
+                b_ = _FIELD_RANGE(t[1])      # the field of a loop-carried struct: its construction-time invariant still holds
+        if b_ is not None:
+            saved = _ENV.pop(t, None)
+            try:
+                iv_ = interval(t, depth + 1)
+            finally:
+                if saved is not None:
+                    _ENV[t] = saved
+            lo_ = b_[0] if b_[0] is not None else 0
+            if iv_ is None:
+                return (lo_, b_[1]) if b_[1] is not None else None
+            hi_ = iv_[1] if b_[1] is None else min(iv_[1], b_[1])
+            return (max(iv_[0], lo_), hi_)
     k = t[0]
     if k == 'c':
         return (t[1], t[1]) if isinstance(t[1], int) and not isinstance(t[1], bool) and t[1] >= 0 else None
@@ -189,19 +252,22 @@ class RangeProver:
         key = (root, tuple(sorted(force)))
         if key not in self.cache:
             ev = defaultdict(list)
-            modpre = root.split('::')[0:2]
+            modpre = root.lstrip('<').split('::')[0:2]
 
             def pol(n_, bb, d):
                 if n_ in force:
                     return True
                 # small helpers of the same module are part of the computation
-                return True if (d < 3 and not bb.loops() and len(bb.blocks) <= 40 and n_.split('::')[0:2] == modpre) else None
+                return True if (d < 3 and not bb.loops() and len(bb.blocks) <= 40 and n_.lstrip('<').split('::')[0:2] == modpre) else None
             try:
                 sx = self.ctx.symex(inline_depth=4, loop_visits=2, inline_pred=pol, havoc_loops=True, max_paths=1500)
                 for p in sx.run(root):
+                    env_ = None
                     for e in p.events:
                         if e[0] == 'assert':
-                            ev[(e[4], e[5])].append(e)
+                            if env_ is None:
+                                env_ = env_of_conds(p.conds)
+                            ev[(e[4], e[5])].append((e, env_))
             except PathLimit:
                 ev = None
             self.cache[key] = ev
@@ -210,12 +276,68 @@ class RangeProver:
     def proved(self, nid, bi, kind, bits):
         return self._prove((nid, bi), kind, bits, nid, (), 0)
 
+    def _holds(self, kind, ops, bits, env):
+        global _ENV, _FIELD_RANGE
+        _ENV, _FIELD_RANGE = dict(env or {}), self.field_range
+        try:
+            return _assert_holds(kind, ops, bits)
+        finally:
+            _ENV, _FIELD_RANGE = {}, None
+
+    def field_range(self, t):
+        """Invariant range of an integer struct field that is only ever set when the struct is constructed (never assigned afterwards):
+        the union of the ranges of the constructor operands, each evaluated on the paths of the constructing function."""
+        name = t[2]
+        key = ('fieldrange', name)
+        if key in self.cache:
+            return self.cache[key]
+        self.cache[key] = None       # (recursion guard)
+        prog = self.ctx.prog
+        owners = [(an, f_) for an, a_ in prog.adts.items() for v_ in a_['variants'] for f_ in v_['fields']
+                  if f_['name'] == name and f_['ty']['s'] in TYPE_MAX and a_['kind'] == 'Struct']
+        res = None
+        if len(owners) == 1 and isinstance(name, str):
+            an = owners[0][0]
+            if not self.ctx.eff.who_has(('write', an, name)):
+                ctors = sorted(nid for nid, b in prog.bodies.items() if any(
+                    s_['st'] == 'assign' and s_['rv']['rv'] == 'aggr' and s_['rv'].get('kind') == 'adt' and norm(s_['rv'].get('adt') or '') == an for _, _, s_ in b.stmts()))
+                lo, hi, okall = None, None, bool(ctors)
+                names = [f_['name'] for f_ in prog.adts[an]['variants'][0]['fields']]
+                for c in ctors:
+                    try:
+                        ps = self.ctx.symex(inline_depth=1, loop_visits=2, havoc_loops=True, max_paths=500).run(c)
+                    except PathLimit:
+                        okall = False; break
+                    seen = False
+                    for p in ps:
+                        for x in ([y for y in subterms(p.ret) if isinstance(y, tuple)] if p.ret is not None else []):
+                            if x and x[0] == 'aggr' and norm(str(x[1])) == an and len(x[3]) == len(names):
+                                seen = True
+                                global _ENV, _FIELD_RANGE
+                                sv = (_ENV, _FIELD_RANGE)
+                                _ENV, _FIELD_RANGE = env_of_conds(p.conds), None
+                                try:
+                                    iv = interval(x[3][names.index(name)])
+                                finally:
+                                    _ENV, _FIELD_RANGE = sv
+                                if iv is None:
+                                    okall = False
+                                else:
+                                    lo = iv[0] if lo is None else min(lo, iv[0])
+                                    hi = iv[1] if hi is None else max(hi, iv[1])
+                    if not seen:
+                        okall = False
+                if okall and hi is not None:
+                    res = (lo, hi)
+        self.cache[key] = res
+        return res
+
     def _prove(self, site, kind, bits, root, force, depth):
         prog = self.ctx.prog
         ev = self._events(root, force=force)
         if ev is not None:
             occ = ev.get(site, [])
-            if occ and all(_assert_holds(kind, e[2], bits) for e in occ):
+            if occ and all(self._holds(kind, e[2], bits, env_) for e, env_ in occ):
                 return 'in %s (%d path occurrence(s))' % (root.split('::')[-1], len(occ))
         # calling contexts are consulted for small private helpers only
         if depth >= 3 or root in self.pub or len(prog.bodies[root].blocks) > 40:
@@ -225,7 +347,7 @@ class RangeProver:
             callers.add(prog.bodies[c].root if (prog.bodies[c].kind == 'closure' and prog.bodies[c].root) else c)
         callers.discard(root)
         # value ranges of a helper's parameters are established by the helper's own module; other modules are not searched
-        if not callers or len(callers) > 4 or any(c.split('::')[0:2] != root.split('::')[0:2] or len(prog.bodies[c].blocks) > 80 for c in callers):
+        if not callers or len(callers) > 4 or any(c.lstrip('<').split('::')[0:2] != root.lstrip('<').split('::')[0:2] or len(prog.bodies[c].blocks) > 80 for c in callers):
             return None
         whys = []
         for c in sorted(callers):
@@ -253,12 +375,36 @@ def rule_inv_arith(ctx):
     tkey = {}
     auto = 0
     prover = RangeProver(ctx)
+    # functions nothing can call at run time: private, not a trait item, no caller in the crate, never taken as a function value -- a `const fn`
+    # used only in constant initialisers (evaluated by the compiler, where an overflow is a compile error), or dead code
+    callers_ = prog.callers()
+    taken = set()
+    for b_ in prog.bodies.values():
+        for _bi, t_ in b_.all_terms():
+            for o_ in (t_.get('args') or []):
+                if isinstance(o_, dict) and o_.get('fn'):
+                    taken.add(norm(o_['fn']))
+        for _bi, _si, s_ in b_.stmts():
+            rv_ = s_.get('rv') or {}
+            for o_ in [rv_.get('op'), rv_.get('a'), rv_.get('b')] + list(rv_.get('ops') or []):
+                if isinstance(o_, dict) and o_.get('fn'):
+                    taken.add(norm(o_['fn']))
+
+    def not_runtime(nid_):
+        bb_ = prog.bodies[nid_]
+        root_ = bb_.root if (bb_.kind == 'closure' and bb_.root) else nid_
+        rb_ = prog.bodies[root_]
+        return not rb_.is_pub and not rb_.impl_trait and not rb_.trait_item and not callers_.get(root_) and root_ not in taken
     for nid, b in sorted(prog.bodies.items()):
         for bi, t in b.all_terms():
             if t['t'] != 'assert':
                 continue
             kind = t['kind']
             if kind in ('Misaligned', 'NullDeref'):
+                continue
+            if not_runtime(nid):
+                r.instance(function=nid, kind=kind, discharged='NOT-RUNTIME (no caller, not public, not a trait item: evaluated in constants by the compiler, or dead)')
+                auto += 1
                 continue
             ops = t['ops']
             shapes = [operand_shape(ctx, b, o) for o in ops]
@@ -758,6 +904,26 @@ def rule_auth_node_free(ctx):
                 r.instance(function=fn, primitive=bad, ok=ok)
                 if not ok:
                     r.violate(fn, 'leak-primitive', bad.split('::')[-1], '%s used in %s: ownership of a key/value/node escapes the borrow checker' % (bad, fn), where=ctx.where(fn))
+    # the re-boxed node is really released: it is dropped (or handed to the caller by the pop role), never parked in the list's own state --
+    # a parked node keeps its element (key clone, EntryInfo) alive although no entry uses it any more
+    for fn in sorted(prog.bodies):
+        if 'std::boxed::Box::from_raw' not in R.ext_calls[fn] or not fn.startswith('common::deque::'):
+            continue
+        try:
+            ps_ = ctx.symex(inline_depth=0, loop_visits=2).run(fn)
+        except PathLimit:
+            raise CheckFailure('AUTH-node-free: path limit in %s' % fn)
+        for p in ps_:
+            for e in p.events:
+                if e[0] == 'call' and e[1] == 'std::boxed::Box::from_raw':
+                    res = e[6] if len(e) > 6 else ('call', e[1], e[2])
+                    def _holds(v_):     # the box itself (possibly wrapped: Some(box)), not a value read out of the node
+                        return v_ == res or (isinstance(v_, tuple) and v_ and ((v_[0] == 'aggr' and any(_holds(c_) for c_ in v_[3])) or (v_[0] == 'tuple' and any(_holds(c_) for c_ in v_[1]))))
+                    kept = [w for w in p.events if w[0] == 'write' and _holds(w[2])]
+                    r.instance(function=fn, reboxed_node='dropped or returned' if not kept else 'stored to %s' % fmt(kept[0][1])[:40], ok=not kept)
+                    if kept:
+                        r.violate(fn, 'freed-node-retained', fmt(kept[0][1])[:40], '%s re-boxes a node and stores the box to `%s` instead of dropping it: the node, the key clone and the entry info '
+                                  'it owns outlive the entry' % (fn, fmt(kept[0][1])[:40]), where=ctx.where(fn, kept[0][3]), expected='std::mem::drop(Box::from_raw(node.as_ptr()))')
     # non-dropping unlink: only from unlink_and_drop
     unl = sorted(R.unlink_node)
     for u in unl:
@@ -774,7 +940,7 @@ def rule_auth_node_free(ctx):
             if c.startswith(('common::deque::', '<common::deque::', '<<common::deque::')):
                 r.instance(function=pf, caller=c, ok=True, why='list destructor')
                 continue
-            if c.startswith('unsync::'):
+            if c.startswith(('unsync::', '<unsync::')):
                 # must be on a path where the key was not found in the map
                 sx = ctx.symex(inline_depth=2, loop_visits=2)
                 okall = True
